@@ -45,6 +45,9 @@ func logData(ctx context.Context, log *slog.Logger, data Data) {
 }
 
 func (f *Fetcher) exchangeKeys(ctx context.Context) error {
+	// The exchange fills in a local value; f.data is only replaced once the
+	// exchange has succeeded, so that a failed exchange leaves nothing behind.
+	var data Data
 	if f.QUIC.Enabled {
 		conn, _, err := dialQUIC(f.Log, f.QUIC.LocalAddr, f.QUIC.RemoteAddr, f.QUIC.DaemonAddr, &f.TLSConfig)
 		if err != nil {
@@ -57,12 +60,12 @@ func (f *Fetcher) exchangeKeys(ctx context.Context) error {
 			}
 		}()
 
-		err = exchangeDataQUIC(ctx, f.Log, conn, &f.data)
+		err = exchangeDataQUIC(ctx, f.Log, conn, &data)
 		if err != nil {
 			return err
 		}
 
-		err = ExportKeys(conn.ConnectionState().TLS, &f.data)
+		err = ExportKeys(conn.ConnectionState().TLS, &data)
 		if err != nil {
 			return err
 		}
@@ -70,29 +73,30 @@ func (f *Fetcher) exchangeKeys(ctx context.Context) error {
 		var err error
 		var conn *tls.Conn
 		serverAddr := net.JoinHostPort(f.TLSConfig.ServerName, f.Port)
-		conn, f.data, err = dialTLS(serverAddr, &f.TLSConfig)
+		conn, data, err = dialTLS(serverAddr, &f.TLSConfig)
 		if err != nil {
 			return err
 		}
 
-		err = exchangeDataTLS(ctx, f.Log, conn, &f.data)
+		err = exchangeDataTLS(ctx, f.Log, conn, &data)
 		if err != nil {
 			return err
 		}
 
-		err = ExportKeys(conn.ConnectionState(), &f.data)
+		err = ExportKeys(conn.ConnectionState(), &data)
 		if err != nil {
 			return err
 		}
 	}
 
-	if len(f.data.Cookie) == 0 {
+	if len(data.Cookie) == 0 {
 		return errNoCookies
 	}
-	if f.data.Algo != AES_SIV_CMAC_256 {
+	if data.Algo != AES_SIV_CMAC_256 {
 		return errUnknownAlgo
 	}
 
+	f.data = data
 	logData(ctx, f.Log, f.data)
 	return nil
 }
